@@ -76,6 +76,7 @@ def run(ctx):
     thorough = ctx.tier == 'thorough'
     rng = ctx.rng
     cfgs = ['base', 'rel', 'dbg8', 'dbg16'] if thorough else ['base', 'dbg8', 'rel']
+    build.warm(cfgs, [('iter', ['h_iter.cpp'], {})])
     exes = {c: build.build_harness('iter', c, ['h_iter.cpp']) for c in cfgs}
     try:
         rexe = ctx.replay_exe()
